@@ -130,6 +130,7 @@ impl Cx {
     /// start of a case: the trace of a violation is context + the calls made since here
     pub fn begin_case(&mut self, case: Value) {
         api::rec_truncate(self.ctx_len);
+        api::note_case(&case);
         self.case = case;
     }
     pub fn sample(&mut self, v: Value) {
